@@ -864,6 +864,40 @@ def run(ctx: Any, prog: Program) -> None:
                                   'come back in another order than they were written', func=q23, text=f'{q23}: `{base.id}` ordered numerically')
     ctx.check('C06.V23', True, vm, vm.tree, f'{n23} orderings by index text found', func='<module>', text='orderings of tables keyed by index text examined')
 
+    # ---- V26: row readers store every row they are handed ------------------------------------------------------------------------------------
+    # `for y, split in self._iter_disp_row(...)`: the exporter writes one row per y for every block, and what a row "would have been anyway"
+    # depends on the block (the colour layers start at 1 1 1, the vector arrays at 0 0 0).  A `continue` decided by the content of the row
+    # skips the store for rows the shared reader believes to be defaults.
+    ctx.rule('C06.V26', 'the displacement row readers skip no row because of what it contains', floor=2)
+    n26 = 0
+    for q26 in ('Side._parse_disp_vecrow', 'Side._parse_displacement_data'):
+        f26 = vm.func(q26)
+        for lp in walk_no_nested(f26):
+            if not (isinstance(lp, ast.For) and isinstance(lp.iter, ast.Call) and dotted(lp.iter.func) == 'self._iter_disp_row' and isinstance(lp.target, ast.Tuple) and len(lp.target.elts) == 2
+                    and isinstance(lp.target.elts[1], ast.Name)):
+                continue
+            n26 += 1
+            rowvar = lp.target.elts[1].id
+            skips = [i for i in ast.walk(lp) if isinstance(i, ast.If) and any(isinstance(x, ast.Continue) for b in i.body for x in ast.walk(b)) and any(isinstance(x, ast.Name) and x.id == rowvar for x in ast.walk(i.test))]
+            ctx.check('C06.V26', not skips, vm, skips[0] if skips else lp, f'{q26} skips a row when `{U(skips[0].test)[:60] if skips else ""}`: whether an unstored row equals what the vertexes already hold depends on the block being read '
+                      '(the multiblend colours are pre-filled with 1 1 1, so an exported `0 0 0` row comes back as white)', func=q26, text=f'{q26}: rows of {U(lp.iter.args[1])[:30] if len(lp.iter.args) > 1 else "?"} all stored')
+    ctx.shape('C06.V26', n26 >= 2, vm, vm.tree, f'{n26} row loops over _iter_disp_row found (vector rows and the scalar / colour blocks confirmed by hand)', text='row loops')
+    # ---- V27: the fixup table is written under the names the user gave ----------------------------------------------------------------------
+    # EntityFixup._fixup is keyed by the CASE-FOLDED variable name (the lookups fold); the spelling lives in FixupValue.var.  The exporter has to
+    # write the latter: the key gives `$connection_count` for `$Connection_Count`.
+    ctx.rule('C06.V27', 'EntityFixup.export writes FixupValue.var, not the case-folded key of the table', floor=1)
+    fx = vm.func('EntityFixup.export')
+    folded_keys = any(isinstance(a, ast.Assign) and isinstance(a.targets[0], ast.Subscript) and dotted(a.targets[0].value) == 'self._fixup' and 'casefold' in U(a.targets[0].slice) for a in ast.walk(vm.cls('EntityFixup')))
+    ctx.shape('C06.V27', folded_keys, vm, vm.cls('EntityFixup'), 'EntityFixup stores its values under case-folded keys', func='EntityFixup', text='fixup table keyed by folded name')
+    keyvars = set()
+    for lp in ast.walk(fx):
+        if isinstance(lp, ast.For) and isinstance(lp.target, ast.Tuple) and lp.target.elts and isinstance(lp.target.elts[0], ast.Name) and any(isinstance(c, ast.Call) and isinstance(c.func, ast.Attribute) and c.func.attr == 'items'
+                                                                                                                                                  and dotted(c.func.value) == 'self._fixup' for c in ast.walk(lp.iter)):
+            keyvars.add(lp.target.elts[0].id)
+    written_keys = [x for c in ast.walk(fx) if isinstance(c, ast.Call) and isinstance(c.func, ast.Attribute) and c.func.attr == 'write' for x in ast.walk(c) if isinstance(x, ast.Name) and x.id in keyvars]
+    ctx.check('C06.V27', not written_keys, vm, written_keys[0] if written_keys else fx, f'EntityFixup.export writes `{written_keys[0].id if written_keys else ""}`, the key of self._fixup: that is the case-folded name, the spelling the map was '
+              'given (`$Connection_Count`) is in FixupValue.var and is lost on export', func='EntityFixup.export', text='fixup names written as given')
+
     # ---- V25: the collision code of a displacement is decoded by the table that encodes it --------------------------------------------------
     # Both directions are module tables (`_DISP_COLL_TO_FLAG[flags & COLL_ALL]` written, `_DISP_FLAG_TO_COLL[int]` read): folded, the reader's
     # table applied to the writer's code has to give the combination back, for all eight combinations.
@@ -1567,6 +1601,8 @@ def elt_token_alternatives(elt: ast.AST, tokens_of_type: Dict[str, int]) -> Opti
 
 
 MUTANTS = [
+    {'id': 'zero_rows_skipped_by_shared_reader', 'file': 'vmf.py', 'find': "        for y, split in self._iter_disp_row(tree, name, 3 * size):\n", 'replace': "        for y, split in self._iter_disp_row(tree, name, 3 * size):\n            if split.count('0') == len(split):\n                continue\n", 'expect': 'C06.V26'},
+    {'id': 'fixup_export_writes_folded_key', 'file': 'vmf.py', 'find': "        for fixup in sorted(self._fixup.values(), key=operator.attrgetter('id')):", 'replace': "        for var, fixup in sorted(self._fixup.items(), key=lambda item: (item[1].id, item[0])):", 'extra': [{'file': 'vmf.py', 'find': "${escape_text(fixup.var)} {escape_text(fixup.value)}", 'replace': "${escape_text(var)} {escape_text(fixup.value)}"}], 'expect': 'C06.V27'},
     {'id': 'disp_collision_bits_swapped_in_writer_table', 'file': 'vmf.py', 'find': "    v: k for (k, v) in\n    list(enumerate(_DISP_FLAG_TO_COLL))[::-1]\n", 'replace': "    coll: (\n        (0 if DispFlag.COLL_PHYSICS in coll else 2) |\n        (0 if DispFlag.COLL_BULLET in coll else 4) |\n        (0 if DispFlag.COLL_PLAYER_NPC in coll else 8)\n    ) for coll in _DISP_FLAG_TO_COLL\n", 'expect': 'C06.V25'},
     {'id': 'ok_disp_collision_writer_table_explicit', 'file': 'vmf.py', 'find': "    v: k for (k, v) in\n    list(enumerate(_DISP_FLAG_TO_COLL))[::-1]\n", 'replace': "    coll: (\n        (0 if DispFlag.COLL_PHYSICS in coll else 2) |\n        (0 if DispFlag.COLL_PLAYER_NPC in coll else 4) |\n        (0 if DispFlag.COLL_BULLET in coll else 8)\n    ) for coll in _DISP_FLAG_TO_COLL\n", 'expect': None, 'note': 'negative control: the inverse table built explicitly with the right bits'},
     {'id': 'cordon_corners_sorted_on_read', 'file': 'vmf.py', 'find': "        min_ = bounds.vec('mins', 0, 0, 0)\n        max_ = bounds.vec('maxs', 128, 128, 128)\n", 'replace': "        min_, max_ = Vec.bbox(bounds.vec('mins', 0, 0, 0), bounds.vec('maxs', 128, 128, 128))\n", 'expect': 'C06.V24'},
